@@ -335,7 +335,12 @@ pub fn run_program(ops: &[Op], env: &ExecEnv) -> ExecOut {
                 Err(e) => Res::Err(zerr(&e)),
             },
             Op::SetComment { c } => {
-                w.as_mut().unwrap().set_raw_comment(c.0.clone());
+                // both spellings of the call: the String-taking one for comments that are UTF-8 (keyed on the
+                // comment itself so that the choice replays)
+                match std::str::from_utf8(&c.0) {
+                    Ok(s) if c.0.len() % 2 == 0 => w.as_mut().unwrap().set_comment(s),
+                    _ => w.as_mut().unwrap().set_raw_comment(c.0.clone()),
+                }
                 Res::Ok(0)
             }
             Op::RawCopy { src, how, index, rename } => {
@@ -505,7 +510,7 @@ pub fn gen_name(r: &mut Rng, used: &[String], long_ok: bool) -> String {
         7 => format!("../{}", gen_word(r)),
         8 => format!("/abs/{}", gen_word(r)),
         9 => format!("{}😀", gen_word(r)),
-        10 if long_ok => {
+        10 | 15 if long_ok => {
             let n = r.pickc(&[255usize, 256, 1000, 65535, 65534, 40000]);
             let mut s = String::with_capacity(n);
             let w = gen_word(r);
